@@ -470,6 +470,14 @@ do {									\
 	return TRUE;
 }
 
+/* bs->payload counts octets when the octet routines are used
+   (bs->endian 0 or 1), bits otherwise. */
+_vbi_inline unsigned int
+payload_bits			(const vbi3_bit_slicer *bs)
+{
+	return (bs->endian < 2) ? bs->payload * 8 : bs->payload;
+}
+
 static vbi_bool
 null_function			(vbi3_bit_slicer *	bs,
 				 uint8_t *		buffer,
@@ -546,10 +554,10 @@ vbi3_bit_slicer_slice_with_points
 	points_start = points;
 	*n_points = 0;
 
-	if (bs->payload > buffer_size * 8) {
+	if (payload_bits (bs) > buffer_size * 8) {
 		warning (&bs->log,
 			 "buffer_size %u < %u bits of payload.",
-			 buffer_size * 8, bs->payload);
+			 buffer_size * 8, payload_bits (bs));
 		return FALSE;
 	}
 
@@ -614,10 +622,10 @@ vbi3_bit_slicer_slice		(vbi3_bit_slicer *	bs,
 	assert (NULL != buffer);
 	assert (NULL != raw);
 
-	if (bs->payload > buffer_size * 8) {
+	if (payload_bits (bs) > buffer_size * 8) {
 		warning (&bs->log,
 			 "buffer_size %u < %u bits of payload.",
-			 buffer_size * 8, bs->payload);
+			 buffer_size * 8, payload_bits (bs));
 		return FALSE;
 	}
 
